@@ -18,7 +18,7 @@ def _floors(per_alt, explicit, noactive, disabled, ctxchg, mt):
 
 SPEC = {
     "runs": [
-        run("e1-model", "c13_log_export", "asan", 4000, 150000, params={"mode": "seq", "kill": "scribble"}),
+        run("e1-model", "c13_log_export", "asan", 3000, 150000, params={"mode": "seq", "kill": "scribble"}),
         run("e1-free", "c13_log_export", "asan", 600, 30000, params={"mode": "seq", "kill": "free"}),
         run("e2-threads", "c13_log_export", "tsan", 400, 12000, params={"mode": "mt"}),
     ],
